@@ -109,6 +109,13 @@ def mon_C15(spec, st, t):
         t2 = U.V2(x=V.build(spec))
         if not (t2 == t) or hash(t2) != h:
             return ('equal-params-unequal-tasks', 'two tasks built from equal parameters differ in ==/hash')
+        try:
+            t3 = U.V2(x=V.build(V.respell(spec)))
+        except BaseException as e:   # noqa
+            return ('rejected-supported', f'the same parameters spelt differently (1 / 1.0 / True, dict entries in another order) were rejected: {e!r}')
+        if not (t3 == t and t == t3) or hash(t3) != h:
+            return ('equal-params-unequal-tasks', 'two tasks built from equal parameters spelt differently (1 / 1.0 / True, dict entries in another '
+                                                  'insertion order) differ in ==/hash')
         other = U.V(x=V.build(spec))
         if other == t:
             return ('equal-across-types', 'tasks of different types compare equal')
@@ -333,7 +340,7 @@ def stage_store_roundtrip(report, tier, rng, dist, prop='C09'):
     n = (120 if tier == 'quick' else 1500) if prop == 'C09' else (80 if tier == 'quick' else 600)
     import lv_pkg.sub.defs as PD
     import lv_pkg.other as PO
-    types = [U.V2, U.V, U.VV, U2.V2, U.VJ, U.V1, U.VPost, PD.V2, PO.V2, U.VRewrite]
+    types = [U.V2, U.V, U.VV, U2.V2, U.VJ, U.V1, U.VPost, PD.V2, PO.V2, U.VRewrite, U.VDef]
     d = tempfile.mkdtemp(dir=subdir('vals'))
     done = 0
     try:
@@ -476,7 +483,7 @@ def stage_listing(report, tier, rng, dist, prop='C09'):
     import lv_pkg.sub.defs as PD
     import lv_pkg.other as PO
     from labtech.lab import Lab
-    types = [U.V2, U.V, U.VV, U2.V2, U.VJ, U.V1, U.VPost, PD.V2, PO.V2, U.VRewrite]
+    types = [U.V2, U.V, U.VV, U2.V2, U.VJ, U.V1, U.VPost, PD.V2, PO.V2, U.VRewrite, U.VDef]
 
     def tt(ty):
         return ('{| tt_cls := %s; tt_prefix := %s; tt_cache := %s |}' % (
